@@ -1,17 +1,22 @@
 /-
   Run-id machine shared by C09 (cancellation stops everything) and C10 (earlier definitions survive).
 
-  What is modelled (interp/interp.go, interp/program.go, interp/run.go):
+  What is modelled (interp/interp.go, interp/program.go, interp/run.go, interp/src.go):
     * `Interpreter.id` / `frame.id`: run generation counters; `runCfg` executes an operation of a frame only
       while `f.runid() == n.interp.runid()`;
-    * `stop()`: bump the interpreter id, close `done`;
-    * `newFrame(anc, len, id)`: which id each call site passes (`call`, `genFunctionWrapper`, `getFunc`,
-      `interp.run`) is a *fact* (`RunIdFacts`), re-extracted from the source on every run;
+    * `stop()`: bump the interpreter id, close `done`, install a fresh `done`;
+    * `newFrame(anc, len, id)`: which id each call site passes (`call`, `interp.run`) and, for the calls of
+      function values (`genFunctionWrapper`, `getFunc`), whether they go through `newCallFrame`, which takes the
+      id AND the done channel of the ROOT frame, read when the call is made — all of it *facts* (`RunIdFacts`),
+      re-extracted from the source on every run;
     * `Execute`: refresh of the root frame id, then the run list (root code, global variables, every `init`,
-      `main`) — whether the list is abandoned after a cancellation is a fact;
+      `main`), then (deferred) a second refresh when it returns; `importSrc`: refresh before the entry points of
+      an imported package;
     * blocking channel operations (`recv`, `recv2`, `send`, `rangeChan`, `_select`): whether `f.done` is one of
       the `reflect.Select` cases and whether the variant is chosen by `n.interp.cancelChan` when the closure
-      is generated.
+      is generated; where `cancelChan` is set (`New`, or the `…WithContext` entry points).
+    * `go f()` of a function value: the frame of the new goroutine is made BY the new goroutine, when it starts
+      (the wrapper of `getFunc` / `genFunctionWrapper` runs there): `G.pending`.
   Not modelled: values, channel contents (a blocked operation may complete at any time: `Choice.comm`).
 
   Core Lean only. Everything here is total and executable; `Driver/C09.lean` and `Driver/C10.lean` run it.
@@ -20,18 +25,26 @@ namespace YaegiVerif.RunId
 
 /-! ### facts -/
 
-/-- which id a `newFrame(…)` call site passes -/
+/-- which id a frame-creating call site passes -/
 inductive IdSrc where
   | parent      -- `f.runid()` of the frame given as ancestor
   | interp      -- `interp.runid()` / `n.interp.runid()`: the interpreter's current id
+  | root        -- `anc.root.runid()`: the id of the root frame, read when the frame is made (`newCallFrame`)
   | other       -- anything else (the extractor could not classify the argument)
+  deriving DecidableEq, Repr, Inhabited
+
+/-- which done channel the new frame of a call site races -/
+inductive DoneSrc where
+  | inherit     -- `newFrame`: `f.done = anc.done`
+  | root        -- `newCallFrame`: `f.done = root.done`, read when the frame is made
+  | other
   deriving DecidableEq, Repr, Inhabited
 
 inductive BlkKind where
   | recv | recv2 | send | range | select
   deriving DecidableEq, Repr, Inhabited
 
-/-- the three ways an interpreted function body gets its frame -/
+/-- the ways an interpreted function body gets its frame -/
 inductive Site where
   | call | wrapper | closure
   | earlier      -- a closure made (frame cloned) by an earlier, completed evaluation
@@ -48,18 +61,23 @@ structure BlockFact where
   deriving DecidableEq, Repr, Inhabited
 
 structure RunIdFacts where
-  /-- run.go `call`: `newFrame(f, …, f.runid())` (also used by `go f()`) -/
+  /-- run.go `call`: `newFrame(f, …, f.runid())` (also used by `go f()` of a declared function) -/
   callId : IdSrc
-  /-- run.go `genFunctionWrapper`: `newFrame(f, …, f.runid())` -/
+  /-- run.go `genFunctionWrapper`: `newCallFrame(f, …)` → `newFrame(anc, …, root.runid())`; before 4a41b28
+      `newFrame(f, …, f.runid())` -/
   wrapperId : IdSrc
-  /-- run.go `getFunc`: `newFrame(fr, …, fr.runid())` where `fr := f.clone()` -/
+  /-- … and `f.done = root.done` (1578873); `newFrame` alone inherits the ancestor's -/
+  wrapperDone : DoneSrc
+  /-- run.go `getFunc`: `newCallFrame(fr, …)` where `fr := f.clone()`; before: `newFrame(fr, …, fr.runid())` -/
   closureId : IdSrc
+  closureDone : DoneSrc
   /-- interp.go `clone`: the clone copies `f.runid()` -/
   cloneKeepsId : Bool
   /-- interp.go `clone`: the clone copies `f.done` (the `reflect.SelectCase` of the done channel current when the
-      closure was made); `newFrame` copies the ancestor's -/
+      closure was made); matters when `closureDone = inherit` -/
   cloneKeepsDone : Bool
-  /-- run.go `interp.run`, `cf != nil`: `newFrame(cf, …, interp.runid())` -/
+  /-- run.go `interp.run`, `cf != nil`: `newFrame(cf, …, cf.runid())` (c403bf5; before: `interp.runid()`);
+      `cf` is the root frame -/
   entryId : IdSrc
   /-- run.go `interp.run`, `cf == nil`: the interpreter's root frame itself is used -/
   entryRootShared : Bool
@@ -70,20 +88,36 @@ structure RunIdFacts where
   stopBumps : Bool
   /-- interp.go `stop`: `close(interp.done)` -/
   stopCloses : Bool
+  /-- interp.go `stop`: `interp.done = make(chan struct{})` after the close (ba001d8) -/
+  stopRenews : Bool
   /-- program.go `Execute`: `interp.frame.setrunid(interp.runid())` before the run list -/
   execRefresh : Bool
-  /-- program.go `Execute` tests for a cancellation between the entries of its run list (today: no) -/
+  /-- program.go `Execute`: `defer func() { interp.frame.setrunid(interp.runid()) }()` (4a41b28) -/
+  execRefreshAtReturn : Bool
+  /-- program.go `Execute` tests for a cancellation between the entries of its run list (no) -/
   execChecksCancel : Bool
+  /-- src.go `importSrc`: `interp.frame.setrunid(interp.runid())` before the entry points of the package (2667a11) -/
+  importRefresh : Bool
   /-- the three `…WithContext` watchers: `case <-ctx.Done(): interp.stop(); return reflect.Value{}, ctx.Err()` -/
   watcherStops : Bool
   watcherCtxErr : Bool
-  /-- the three `…WithContext` entry points set `cancelChan = !fastChan` and a fresh `done` -/
+  /-- the three `…WithContext` entry points install a fresh `done` -/
+  ctxFreshDone : Bool
+  /-- the three `…WithContext` entry points set `cancelChan = !fastChan` (before cc65000) -/
   ctxSetsCancelChan : Bool
+  /-- interp.go `New` sets `cancelChan = !fastChan` (cc65000) -/
+  newSetsCancelChan : Bool
   recv : BlockFact
   recv2 : BlockFact
   send : BlockFact
   range : BlockFact
   select : BlockFact
+  /-- run.go `recv`: the cancellable variants store the received value only after the test of the chosen case
+      (50c4f88, cc65000); values are not modelled: tie and correspondence only -/
+  recvStoresAfterCheck : Bool
+  /-- run.go `getFunc`: the wrapper restores the literal's frame slot after each call (before d26dd9e); values
+      are not modelled: tie and correspondence only -/
+  closureRestoresSlot : Bool
   deriving DecidableEq, Repr, Inhabited
 
 def RunIdFacts.blk (F : RunIdFacts) : BlkKind → BlockFact
@@ -92,28 +126,35 @@ def RunIdFacts.blk (F : RunIdFacts) : BlkKind → BlockFact
 def RunIdFacts.site (F : RunIdFacts) : Site → IdSrc
   | .call => F.callId | .wrapper => F.wrapperId | .closure => F.closureId | .earlier => F.closureId
 
+def RunIdFacts.siteDone (F : RunIdFacts) : Site → DoneSrc
+  | .call => .inherit | .wrapper => F.wrapperDone | .closure => F.closureDone | .earlier => F.closureDone
+
 /-- the id a new frame gets -/
-def newId (s : IdSrc) (parent cur : Nat) : Nat :=
+def newId (s : IdSrc) (parent cur root : Nat) : Nat :=
   match s with
   | .parent => parent
   | .interp => cur
+  | .root => root
   | .other => cur + 1
 
 /-- the loop guard of `runCfg` (the harness and the proofs use the loop without debugger) -/
 def guardOk (F : RunIdFacts) (fid cur : Nat) : Bool := !F.guardPlain || fid == cur
 
-/-- is the done channel of a new frame the one `stop()` will close? It is inherited from the creating frame
-    (`newFrame`: `f.done = anc.done`), except for a closure made by an earlier evaluation, whose cloned frame keeps
-    the channel of that evaluation -/
-def childCur (F : RunIdFacts) (s : Site) (parentCur : Bool) : Bool :=
-  match s with
-  | .earlier => !F.cloneKeepsDone
-  | _ => parentCur
+/-- is the done channel of a new frame the one `stop()` closes? `newFrame` copies the creating frame's; a closure
+    made by an earlier evaluation keeps the channel of that evaluation in its cloned frame; `newCallFrame`
+    takes the root frame's -/
+def childCur (F : RunIdFacts) (s : Site) (parentCur rootCur : Bool) : Bool :=
+  match F.siteDone s with
+  | .root => rootCur
+  | _ => match s with
+    | .earlier => !F.cloneKeepsDone
+    | _ => parentCur
 
-/-- does a blocked operation of kind `k`, whose closure was generated while `cancelChan` was `canc`,
-    race the `done` channel of its frame? -/
+/-- does a blocked operation of kind `k`, whose closure was generated by (or after) a `…WithContext` call
+    (`canc`) or by a plain `Eval` before any, race the `done` channel of its frame? -/
 def cancellable (F : RunIdFacts) (k : BlkKind) (canc : Bool) : Bool :=
-  (F.blk k).doneCase && (F.blk k).doneEnds && (canc || !(F.blk k).byFlag)
+  (F.blk k).doneCase && (F.blk k).doneEnds &&
+    (!(F.blk k).byFlag || F.newSetsCancelChan || (canc && F.ctxSetsCancelChan))
 
 /-! ### programs and state -/
 
@@ -134,6 +175,14 @@ structure Frame where
   cur : Bool      -- the frame's `done` is the channel the current `…WithContext` call closes on cancellation
   deriving DecidableEq, Repr, Inhabited
 
+/-- a goroutine made by a `go` statement which has not made its frame yet -/
+structure Pending where
+  site : Site
+  pid : Nat       -- id of the frame that executed the `go` statement
+  pcur : Bool     -- whether that frame's done channel is the current one
+  body : Prog
+  deriving DecidableEq, Repr, Inhabited
+
 structure G where
   stack : List Frame                     -- head = running frame
   armed : Bool                           -- the guard was passed for the operation at the head (the step hook point)
@@ -141,6 +190,7 @@ structure G where
   ops : Nat                              -- ghost: operations executed so far
   ticks : Nat                            -- ghost: host calls made so far
   main : Bool                            -- the goroutine that runs `Execute`
+  pending : Option Pending               -- not started yet
   deriving DecidableEq, Repr, Inhabited
 
 /-- an entry of the run list of `Execute` -/
@@ -155,8 +205,10 @@ inductive Ret where
 
 structure St where
   id : Nat                 -- Interpreter.id
-  done : Bool              -- `interp.done` is closed
+  done : Bool              -- the `done` channel this evaluation started with is closed
+  renewed : Bool           -- `interp.done` is no longer that channel (`stop()` installed a fresh one)
   rootId : Nat             -- id of the root frame `interp.frame`
+  rootCur : Bool           -- the root frame's `done` is the channel this evaluation started with
   runList : List Entry     -- entries `Execute` has not started yet
   gs : List G
   watching : Bool          -- the `…WithContext` call has not returned yet
@@ -171,11 +223,14 @@ inductive Choice where
 
 /-! ### transitions -/
 
-def newG (id : Nat) (body : Prog) (cur : Bool) : G :=
-  { stack := [⟨id, body, cur⟩], armed := false, blocked := none, ops := 0, ticks := 0, main := false }
+def newG (p : Pending) : G :=
+  { stack := [], armed := false, blocked := none, ops := 0, ticks := 0, main := false, pending := some p }
+
+/-- `interp.run` stores `interp.done`, as it is now, in the frame it runs -/
+def curNow (σ : St) : Bool := !σ.renewed
 
 /-- execute the operation for which the guard was passed -/
-def execOp (F : RunIdFacts) (cur : Nat) (g : G) : G × List G :=
+def execOp (F : RunIdFacts) (σ : St) (g : G) : G × List G :=
   match g.stack with
   | [] => ({ g with armed := false }, [])
   | fr :: rest =>
@@ -185,60 +240,80 @@ def execOp (F : RunIdFacts) (cur : Nat) (g : G) : G × List G :=
     | .tick p => ({ g with stack := ⟨fr.id, p, fr.cur⟩ :: rest, armed := false, ops := g.ops + 1, ticks := g.ticks + 1 }, [])
     | .mkclosure p => ({ g with stack := ⟨fr.id, p, fr.cur⟩ :: rest, armed := false, ops := g.ops + 1 }, [])
     | .call s body p =>
-      ({ g with stack := ⟨newId (F.site s) fr.id cur, body, childCur F s fr.cur⟩ :: ⟨fr.id, p, fr.cur⟩ :: rest,
+      ({ g with stack := ⟨newId (F.site s) fr.id σ.id σ.rootId, body, childCur F s fr.cur σ.rootCur⟩ :: ⟨fr.id, p, fr.cur⟩ :: rest,
                 armed := false, ops := g.ops + 1 }, [])
     | .spawn s body p =>
       ({ g with stack := ⟨fr.id, p, fr.cur⟩ :: rest, armed := false, ops := g.ops + 1 },
-       [newG (newId (F.site s) fr.id cur) body (childCur F s fr.cur)])
+       [newG ⟨s, fr.id, fr.cur, body⟩])
     | .block k c p =>
       ({ g with stack := ⟨fr.id, p, fr.cur⟩ :: rest, armed := false, blocked := some (k, cancellable F k c && fr.cur),
                 ops := g.ops + 1 }, [])
 
-/-- a goroutine that is neither armed nor blocked: return from a finished or stale frame, pass the guard,
-    or (the main goroutine, between entries) start the next entry of the run list -/
-def advance (F : RunIdFacts) (σ : St) (g : G) : G × List Entry :=
-  match g.stack with
-  | [] =>
-    if g.main then
-      match σ.runList with
-      | [] => (g, [])
-      | e :: es =>
-        if F.execChecksCancel && σ.done then (g, [])
-        else ({ g with stack := [⟨if e.root then σ.rootId else newId F.entryId σ.rootId σ.id, e.prog, true⟩] }, es)
-    else (g, σ.runList)
-  | fr :: rest =>
-    match fr.pc with
-    | .done => ({ g with stack := rest }, σ.runList)
-    | _ => if guardOk F fr.id σ.id then ({ g with armed := true }, σ.runList) else ({ g with stack := rest }, σ.runList)
+/-- what one transition of a goroutine produces -/
+structure Out where
+  g : G
+  spawned : List G
+  list : List Entry      -- the run list afterwards
+  rootCur : Bool         -- the root frame's done afterwards
+  deriving DecidableEq, Repr, Inhabited
+
+/-- a goroutine that is neither armed nor blocked: make its first frame, return from a finished or stale frame,
+    pass the guard, or (the main goroutine, between entries) start the next entry of the run list -/
+def advance (F : RunIdFacts) (σ : St) (g : G) : Out :=
+  match g.pending with
+  | some pd =>
+    ⟨{ g with pending := none,
+              stack := [⟨newId (F.site pd.site) pd.pid σ.id σ.rootId, pd.body, childCur F pd.site pd.pcur σ.rootCur⟩] },
+     [], σ.runList, σ.rootCur⟩
+  | none =>
+    match g.stack with
+    | [] =>
+      if g.main then
+        match σ.runList with
+        | [] => ⟨g, [], [], σ.rootCur⟩
+        | e :: es =>
+          if F.execChecksCancel && σ.done then ⟨g, [], [], σ.rootCur⟩
+          else ⟨{ g with stack := [⟨if e.root then σ.rootId else newId F.entryId σ.rootId σ.id σ.rootId, e.prog, curNow σ⟩] },
+                [], es, if e.root then curNow σ else σ.rootCur⟩
+      else ⟨g, [], σ.runList, σ.rootCur⟩
+    | fr :: rest =>
+      match fr.pc with
+      | .done => ⟨{ g with stack := rest }, [], σ.runList, σ.rootCur⟩
+      | _ =>
+        if guardOk F fr.id σ.id then ⟨{ g with armed := true }, [], σ.runList, σ.rootCur⟩
+        else ⟨{ g with stack := rest }, [], σ.runList, σ.rootCur⟩
 
 /-- a blocked goroutine: released by `done` if the operation races it (the frame then ends: `return nil`) -/
 def wake (σ : St) (g : G) (rel : Bool) : G :=
   if σ.done && rel then { g with blocked := none, stack := g.stack.tail } else g
 
-def stepG (F : RunIdFacts) (σ : St) (g : G) : G × List G × List Entry :=
+def stepG (F : RunIdFacts) (σ : St) (g : G) : Out :=
   match g.blocked with
-  | some (_, rel) => (wake σ g rel, [], σ.runList)
+  | some (_, rel) => ⟨wake σ g rel, [], σ.runList, σ.rootCur⟩
   | none =>
     if g.armed then
-      let r := execOp F σ.id g
-      (r.1, r.2, σ.runList)
-    else
-      let r := advance F σ g
-      (r.1, [], r.2)
+      ⟨(execOp F σ g).1, (execOp F σ g).2, σ.runList, σ.rootCur⟩
+    else advance F σ g
 
-/-- the `…WithContext` call returns normally when `Execute` has finished its list -/
-def finished (g : G) : Bool := g.stack.isEmpty && !g.armed && g.blocked.isNone
+/-- nothing left to do -/
+def finished (g : G) : Bool := g.stack.isEmpty && !g.armed && g.blocked.isNone && g.pending.isNone
 
-/-- `Execute` has walked its whole list: the `…WithContext` call returns normally (unless it has returned already) -/
-def markReturn (isMain fin : Bool) (σ : St) : St :=
-  if isMain && fin && σ.watching then { σ with watching := false, ret := some .value } else σ
+/-- `Execute` has walked its whole list: it returns (the deferred refresh of the root id), and the `…WithContext`
+    call returns normally unless it has returned already -/
+def execReturn (F : RunIdFacts) (isMain fin : Bool) (σ : St) : St :=
+  if isMain && fin then
+    { σ with rootId := if F.execRefreshAtReturn then σ.id else σ.rootId,
+             watching := false,
+             ret := if σ.watching then some .value else σ.ret }
+  else σ
 
 def stepRun (F : RunIdFacts) (σ : St) (i : Nat) : St :=
   match σ.gs[i]? with
   | none => σ
   | some g =>
-    markReturn g.main (finished (stepG F σ g).1 && (stepG F σ g).2.2.isEmpty)
-      { σ with gs := σ.gs.set i (stepG F σ g).1 ++ (stepG F σ g).2.1, runList := (stepG F σ g).2.2 }
+    execReturn F g.main (finished (stepG F σ g).g && (stepG F σ g).list.isEmpty)
+      { σ with gs := σ.gs.set i (stepG F σ g).g ++ (stepG F σ g).spawned, runList := (stepG F σ g).list,
+               rootCur := (stepG F σ g).rootCur }
 
 def stepComm (σ : St) (i : Nat) : St :=
   match σ.gs[i]? with
@@ -254,6 +329,7 @@ def stepStop (F : RunIdFacts) (σ : St) : St :=
     { σ with
       id := if F.watcherStops && F.stopBumps then σ.id + 1 else σ.id,
       done := σ.done || (F.watcherStops && F.stopCloses),
+      renewed := σ.renewed || (F.watcherStops && F.stopRenews),
       watching := false,
       ret := if F.watcherCtxErr then some .ctxErr else some .value }
   else σ
@@ -265,41 +341,48 @@ def stepC (F : RunIdFacts) (σ : St) : Choice → St
 
 def runSched (F : RunIdFacts) (σ : St) (cs : List Choice) : St := cs.foldl (stepC F) σ
 
-/-- the state in which `EvalWithContext` starts `Execute` on a run list: the root id is refreshed,
-    a fresh `done` channel is installed, the main goroutine has an empty stack -/
+/-- the state in which `EvalWithContext` starts `Execute` on a run list: the root id is refreshed, a fresh `done`
+    channel is installed and stored in the root frame (the first thing `Execute` does is `interp.run(p.root, nil)`:
+    tie `execRuns`), the main goroutine has an empty stack -/
 def start (F : RunIdFacts) (id rootId : Nat) (entries : List Entry) : St :=
-  { id := id, done := false, rootId := if F.execRefresh then id else rootId, runList := entries,
-    gs := [{ stack := [], armed := false, blocked := none, ops := 0, ticks := 0, main := true }],
+  { id := id, done := false, renewed := false, rootId := if F.execRefresh then id else rootId, rootCur := true,
+    runList := entries,
+    gs := [{ stack := [], armed := false, blocked := none, ops := 0, ticks := 0, main := true, pending := none }],
     watching := true, ret := none }
 
 /-! ### measures used by the termination argument -/
 
-def G.weight (g : G) : Nat := g.stack.length + (if g.armed then 2 else 0) + (if g.blocked.isSome then 1 else 0)
+def G.weight (g : G) : Nat :=
+  g.stack.length + (if g.armed then 3 else 0) + (if g.blocked.isSome then 1 else 0) + (if g.pending.isSome then 2 else 0)
 
 def sumWeights : List G → Nat
   | [] => 0
   | g :: gs => g.weight + sumWeights gs
 
-def St.weight (σ : St) : Nat := sumWeights σ.gs
+/-- the goroutines' weights plus what `Execute` still has to walk through -/
+def St.weight (σ : St) : Nat := sumWeights σ.gs + 2 * σ.runList.length
 
 def opsOf (σ : St) (i : Nat) : Nat := match σ.gs[i]? with | some g => g.ops | none => 0
 def ticksOf (σ : St) (i : Nat) : Nat := match σ.gs[i]? with | some g => g.ticks | none => 0
 def armedOf (σ : St) (i : Nat) : Bool := match σ.gs[i]? with | some g => g.armed | none => false
 
+/-- can the goroutine still move? (`more`: the run list of `Execute` is not empty) -/
+def G.active (more : Bool) (g : G) : Bool := decide (g.weight > 0) || (g.main && more)
+
 /-- first goroutine that can still move -/
-def firstActive : List G → Nat → Option Nat
+def firstActive (more : Bool) : List G → Nat → Option Nat
   | [], _ => none
-  | g :: gs, i => if g.weight > 0 then some i else firstActive gs (i + 1)
+  | g :: gs, i => if g.active more then some i else firstActive more gs (i + 1)
 
 /-- run goroutines (lowest index first) until nothing moves or the fuel is spent -/
 def drain (F : RunIdFacts) (σ : St) : Nat → St
   | 0 => σ
   | fuel + 1 =>
-    match firstActive σ.gs 0 with
+    match firstActive (!σ.runList.isEmpty) σ.gs 0 with
     | none => σ
     | some i => drain F (stepC F σ (.run i)) fuel
 
-/-! ### predicates on programs -/
+/-! ### predicates on programs and states -/
 
 /-- every blocking operation in the program is of a cancellable variant, and no frame gets a stale done channel -/
 def Prog.canc (F : RunIdFacts) : Prog → Bool
@@ -307,8 +390,8 @@ def Prog.canc (F : RunIdFacts) : Prog → Bool
   | .step p => p.canc F
   | .tick p => p.canc F
   | .mkclosure p => p.canc F
-  | .call s b p => childCur F s true && b.canc F && p.canc F
-  | .spawn s b p => childCur F s true && b.canc F && p.canc F
+  | .call s b p => childCur F s true true && b.canc F && p.canc F
+  | .spawn s b p => childCur F s true true && b.canc F && p.canc F
   | .block k c p => cancellable F k c && p.canc F
 
 def Prog.size : Prog → Nat
@@ -322,7 +405,26 @@ def Prog.size : Prog → Nat
 
 def G.canc (F : RunIdFacts) (g : G) : Bool :=
   g.stack.all (fun fr => fr.pc.canc F && fr.cur) &&
-  (match g.blocked with | some (_, rel) => rel | none => true)
+  (match g.blocked with | some (_, rel) => rel | none => true) &&
+  (match g.pending with | some pd => pd.body.canc F && childCur F pd.site pd.pcur true | none => true)
+
+/-- a site whose frame does not take the id of the frame that makes the call: a call of a function value through
+    `newCallFrame` -/
+def fvSite (F : RunIdFacts) (s : Site) : Bool := F.site s != .parent
+
+/-- the goroutine is about to make a frame whose id is read later than the guard it has passed: it has a `go`
+    statement of a function value in flight, or (outside the goroutine of `Execute`) a call of a function value in
+    flight, or it has been started by such a `go` statement and has not made its frame yet -/
+def G.fvPending (F : RunIdFacts) (g : G) : Bool :=
+  (match g.pending with | some pd => fvSite F pd.site | none => false) ||
+  (g.armed &&
+    (match g.stack with
+     | fr :: _ =>
+       (match fr.pc with
+        | .call s _ _ => fvSite F s && !g.main
+        | .spawn s _ _ => fvSite F s
+        | _ => false)
+     | [] => false))
 
 /-! ### the deterministic policy the correspondence harness uses
 
@@ -345,8 +447,11 @@ def settleG (F : RunIdFacts) (σ : St) (i : Nat) : Nat → St
         let σ' := stepC F σ (.run i)
         if σ' == σ then σ else settleG F σ' i fuel
 
-def settleAll (F : RunIdFacts) (σ : St) (fuel : Nat) : St :=
-  (List.range σ.gs.length).foldl (fun s i => settleG F s i fuel) σ
+/-- `newFirst`: the goroutines are settled newest first (a goroutine just started makes its frame before the
+    goroutine of `Execute` goes on) instead of oldest first — the one race the step hook cannot decide -/
+def settleAll (F : RunIdFacts) (σ : St) (fuel : Nat) (newFirst : Bool := false) : St :=
+  let idx := List.range σ.gs.length
+  (if newFirst then idx.reverse else idx).foldl (fun s i => settleG F s i fuel) σ
 
 /-- index of the newest armed goroutine -/
 def pickNewest (gs : List G) : Option Nat :=
@@ -371,12 +476,14 @@ def runPolicy (F : RunIdFacts) (fuelSettle : Nat) : Nat → St → St × Nat
 
   A definition made by an earlier evaluation is, for the run-id mechanism, the way its body will get a frame:
     * `callee`  — a named function or a method: called through `call`, the frame inherits the caller's id;
-    * `fixed site c` — a closure (`getFunc`: the cloned frame keeps the id `c` it had when the closure was made), or a
-                  wrapper / method value created inside a function frame with id `c`; `site` is the newFrame site used;
+    * `fixed site c` — a closure (`getFunc`: the cloned frame kept the id `c` it had when the closure was made), or a
+                  wrapper / method value created inside a function frame with id `c`; `site` is the site used —
+                  whether `c` is looked at is the site's fact (`newCallFrame` does not);
     * `root`    — a wrapper (`genFunctionWrapper`) created on the root frame: an exported function value handed to
-                  the host, or a method value bound at top level; it reads the root frame's id when called.
+                  the host, or a method value bound at top level.
   A use is either an `Eval` of a call expression (`Execute` refreshes the root id first, the call is made from
-  the root frame) or a direct call by the host (nothing is refreshed). -/
+  the root frame) or a direct call by the host (nothing is refreshed). Events are complete evaluations: a
+  cancelled evaluation is over when its `Execute` has returned. -/
 
 inductive Binding where
   | callee
@@ -386,6 +493,8 @@ inductive Binding where
 
 inductive DefKind where
   | named | method | closure | methodValueTop | methodValueInFunc | hostWrapper
+  | imported     -- a function of a source package imported now, which reads a package variable set by the
+                 -- package's initialiser
   deriving DecidableEq, Repr, Inhabited
 
 inductive Via where
@@ -404,6 +513,7 @@ structure Def where
   a : Nat          -- the function computes x * a + b + (number of calls so far, this one included)
   b : Nat
   calls : Nat
+  inited : Bool    -- the initialiser that stores `b` has run (always, except in a package imported on a stale root frame)
   deriving DecidableEq, Repr, Inhabited
 
 inductive Ev where
@@ -422,58 +532,99 @@ structure HSt where
 /-- `Execute` starts: the root frame takes the current id -/
 def HSt.refresh (F : RunIdFacts) (h : HSt) : HSt := { h with rootId := if F.execRefresh then h.id else h.rootId }
 
+/-- `Execute` returns: the deferred refresh -/
+def HSt.leave (F : RunIdFacts) (h : HSt) : HSt := { h with rootId := if F.execRefreshAtReturn then h.id else h.rootId }
+
 /-- how a definition of kind `k`, made by a successful evaluation in state `h` (root already refreshed), is bound -/
 def bindingOf (F : RunIdFacts) (h : HSt) : DefKind → Binding
   | .named => .callee
   | .method => .callee
   | .closure => if F.cloneKeepsId then .fixed .closure h.rootId else .root   -- made by root code: clone of the root frame
   | .methodValueTop => .root
-  | .methodValueInFunc => .fixed .wrapper (newId F.entryId h.rootId h.id)   -- the frame of the `init` function that made it
+  | .methodValueInFunc => .fixed .wrapper (newId F.entryId h.rootId h.id h.rootId)   -- the frame of the `init` function that made it
   | .hostWrapper => .root
+  | .imported => .callee
+
+/-- do the entry points of a package imported in state `h` (before `Execute` refreshes anything: the import is
+    done while the importing source is compiled) run? They run on the root frame. -/
+def importRuns (F : RunIdFacts) (h : HSt) : Bool :=
+  guardOk F (if F.importRefresh then h.id else h.rootId) h.id
 
 /-- the id of the frame in which the body of the definition runs for this use (`h` already refreshed for `eval`) -/
 def useFrameId (F : RunIdFacts) (h : HSt) (d : Def) : Nat :=
   match d.binding with
-  | .callee => newId F.callId h.rootId h.id
-  | .fixed site c => newId (F.site site) c h.id
-  | .root => newId F.wrapperId h.rootId h.id
+  | .callee => newId F.callId h.rootId h.id h.rootId
+  | .fixed site c => newId (F.site site) c h.id h.rootId
+  | .root => newId F.wrapperId h.rootId h.id h.rootId
 
 /-- does the body run? (the loop guard, for the first and every later operation: nothing changes the ids during a use) -/
 def alive (F : RunIdFacts) (h : HSt) (d : Def) : Bool := guardOk F (useFrameId F h d) h.id
 
-def value (d : Def) (x : Nat) : Nat := x * d.a + d.b + (d.calls + 1)
+def value (d : Def) (x : Nat) : Nat := x * d.a + (if d.inited then d.b else 0) + (d.calls + 1)
 
 def stepH (F : RunIdFacts) (h : HSt) : Ev → HSt
   | .define k a b =>
+    let inited := match k with | .imported => importRuns F h | _ => true
     let h1 := h.refresh F
-    { h1 with defs := h1.defs ++ [{ kind := k, binding := bindingOf F h1 k, a := a, b := b, calls := 0 }] }
+    ({ h1 with defs := h1.defs ++ [{ kind := k, binding := bindingOf F h1 k, a := a, b := b, calls := 0, inited := inited }] } : HSt).leave F
   | .use i via x =>
     let h1 := match via with | .eval => h.refresh F | .host => h
-    match h1.defs[i]? with
-    | none => h1
-    | some d =>
-      if alive F h1 d then
-        { h1 with defs := h1.defs.set i { d with calls := d.calls + 1 }, results := value d x :: h1.results }
-      else
-        -- no operation of the body runs: the result cells keep their zero value, no state changes
-        { h1 with results := 0 :: h1.results }
+    let h2 : HSt := match h1.defs[i]? with
+      | none => h1
+      | some d =>
+        if alive F h1 d then
+          { h1 with defs := h1.defs.set i { d with calls := d.calls + 1 }, results := value d x :: h1.results }
+        else
+          -- no operation of the body runs: the result cells keep their zero value, no state changes
+          { h1 with results := 0 :: h1.results }
+    match via with | .eval => h2.leave F | .host => h2
   | .cancelled c =>
     match c with
     | .expiredBefore =>
-      -- stop() first, then Execute refreshes the root frame with the new id
-      let h1 := { h with id := if F.watcherStops && F.stopBumps then h.id + 1 else h.id }
-      h1.refresh F
+      -- stop() first, then Execute refreshes the root frame with the new id, runs, and returns
+      let h1 : HSt := { h with id := if F.watcherStops && F.stopBumps then h.id + 1 else h.id }
+      (h1.refresh F).leave F
     | _ =>
       let h1 := h.refresh F
-      { h1 with id := if F.watcherStops && F.stopBumps then h1.id + 1 else h1.id }
+      ({ h1 with id := if F.watcherStops && F.stopBumps then h1.id + 1 else h1.id } : HSt).leave F
 
 def runHist (F : RunIdFacts) (h : HSt) (evs : List Ev) : HSt := evs.foldl (stepH F) h
 
 def HSt.init : HSt := { id := 0, rootId := 0, defs := [], results := [] }
 
+/-- the window the events above do not contain: the watcher has run `stop()` and the `…WithContext` call has
+    returned, but `Execute` (its own goroutine) has not: nothing has refreshed the root frame yet -/
+def HSt.stoppedNotLeft (F : RunIdFacts) (h : HSt) : HSt :=
+  let h1 := h.refresh F
+  { h1 with id := if F.watcherStops && F.stopBumps then h1.id + 1 else h1.id }
+
+/-- histories with that window made visible: `hold` is a cancelled busy loop whose `Execute` is kept from returning
+    until the NEXT event is over (the correspondence harness does this with the step hook) -/
+inductive XEv where
+  | ev (e : Ev)
+  | hold
+  deriving DecidableEq, Repr, Inhabited
+
+/-- the cancelled `Execute` that was held returns: its deferred refresh -/
+def settle (F : RunIdFacts) (h : HSt) (held : Bool) : HSt := if held then h.leave F else h
+
+def stepX (F : RunIdFacts) (s : HSt × Bool) : XEv → HSt × Bool
+  | .ev e => (settle F (stepH F s.1 e) s.2, false)
+  | .hold => ((settle F s.1 s.2).stoppedNotLeft F, true)
+
+def runX (F : RunIdFacts) (evs : List XEv) : HSt :=
+  let r := evs.foldl (stepX F) (HSt.init, false)
+  settle F r.1 r.2
+
+/-- what the specification sees of such a history: cancelled evaluations, held or not, are ignored -/
+def XEv.plain : List XEv → List Ev
+  | [] => []
+  | .ev e :: rest => e :: XEv.plain rest
+  | .hold :: rest => XEv.plain rest
+
 /-- the specification: a definition always runs (what Go, and the property, demand) -/
 def stepSpec (h : HSt) : Ev → HSt
-  | .define k a b => { h with defs := h.defs ++ [{ kind := k, binding := .callee, a := a, b := b, calls := 0 }] }
+  | .define k a b => { h with defs := h.defs ++ [{ kind := k, binding := .callee, a := a, b := b, calls := 0, inited := true }] }
   | .use i _ x =>
     match h.defs[i]? with
     | none => h
